@@ -30,7 +30,7 @@ RULE = ("one case = backend (every class in storage_registry) x geometry (full r
         "iff dump_in_subprocess), crash = process death before file-system event k of a dump or a persist (optionally tearing the write) followed by a "
         "restart that must find every element old or new; a quarter of the cases name the folder by a relative path and move the working directory "
         "(chdir) between operations; in half of the cases file modification times come from a virtual coarse clock "
-        (0/1 tick per write) so that quick rewrites share a timestamp; 3% of the cases are agreement histories (the same operations on every shipped "
+        "(0/1 tick per write) so that quick rewrites share a timestamp; 3% of the cases are agreement histories (the same operations on every shipped "
         "backend with masked-array values along internal axes, results compared across backends); rare big cases (4100-8232 elements). distinct_nontrivial = distinct (backend, geometry, history) digests with at least one "
         "dump and one read")
 COMPONENTS = {
